@@ -286,6 +286,13 @@ def gen_cases(rng, tier):
         if r.chance(20):
             rows[r.randint(1, nrow - 1)] = [""] * ncol     # a record whose selected fields are all empty: a row `,,`
         cases.append({"kind": "read", "d": r.choice(DELIMS), "header": header, "rows": rows})
+    # wide files: the header row alone is longer than the 1024 characters the reader hands to the dialect sniffer
+    for d in DELIMS:
+        ncol = r.randint(55, 70)
+        header = ["column_name_number_%03d" % i for i in range(ncol)]
+        rows = [[r.choice(["alpha", "beta", "gamma7", "x.y", "42", "hello world", ""]) + str(r.randint(0, 99)) for _ in range(ncol)]
+                for _ in range(r.randint(2, 4))]
+        cases.append({"kind": "read", "d": d, "header": header, "rows": rows})
     return cases
 
 
